@@ -68,6 +68,15 @@ Proof.
 Qed.
 Print Assumptions C10_lossy_spec_sane.
 
+(* the byte-range table the specification uses for "maximal ill-formed
+   subsequence" is not an extra assumption: a byte string is accepted by it iff
+   it is a non-empty initial subsequence of the encoding of a scalar value *)
+Theorem C10_spec_prefix_table_is_enc :
+  forall p, wf_prefix p = true <->
+            p <> [] /\ exists c s, is_scalar c = true /\ enc c = p ++ s.
+Proof. exact wf_prefix_iff. Qed.
+Print Assumptions C10_spec_prefix_table_is_enc.
+
 (* Parser::from_utf8(): for any inner sink whose observable result does not
    depend on how its text input is cut into pieces (property C03, here a
    premise) nor on error() reports, the result is that of the lossy string *)
